@@ -176,6 +176,8 @@ def spec_call(interp, node, st):
         s1.polarity = -st.polarity
         p = truth(interp.ev(a[0], s1))
         _sync_heap(st, s1)
+        if p is False:
+            return True       # the consequent is not evaluated (it may mention e.g. a table write that does not exist on this path)
         q = truth(interp.ev(a[1], st))
         return b_implies(p, q)
     if fn == "iff":
